@@ -379,6 +379,19 @@ func c11Fixed(t *testing.T, rec *ev.Rec, dir string) {
 			t.Fatalf("reference model disagrees with documented path table row %+v", r)
 		}
 	}
+	// every letter: a rule host in one case must match the request host in the other case (exact and wildcard)
+	for c := 'a'; c <= 'z'; c++ {
+		l := string(c)
+		L := strings.ToUpper(l)
+		rules := []basicRule{{Hosts: []string{"h" + l + "." + l + "x.com"}, Cluster: "c1"}, {Hosts: []string{"*.W" + L + "." + L + ".org"}, Cluster: "c2"}, {Hosts: []string{"*"}, Cluster: "c3"}}
+		l2, err, pi := c11Load(dir, rules)
+		if err != nil || pi != nil {
+			rec.Fail(t, "documented-example-rejected", map[string]any{"rules": basicRulesDoc(rules)}, "alphabet sweep rules do not load: %v %v", err, pi)
+			continue
+		}
+		c11CheckProbe(t, rec, l2, rules, "fixed-alpha-"+l, "H"+L+"."+L+"X.COM", "/", "fixed")
+		c11CheckProbe(t, rec, l2, rules, "fixed-alpha-"+l, "a"+l+".w"+l+"."+l+".org", "/", "fixed")
+	}
 	// the four-rule example and the demo table
 	ex := []basicRule{
 		{Hosts: []string{"*.test1.com"}, Cluster: "c1"},
